@@ -273,6 +273,8 @@ def expect_slice_loop(events: List[Ev], terminal: Any, parent: Inst, container: 
         return x.bad(f"trace is {show_trace(evs)}, expected one loop over the sliced array", evs[0] if evs else None)
     fe = evs[0]
     src: Source = fe.src
+    if src.view == "range" and isinstance(src.base, tuple) and len(src.base) == 3:
+        return _expect_index_loop(x, fe, src, parent, container, sl, it)
     if src.view == "enumerate" and isinstance(src.base, Source) and src.base.view == "slice":
         return x.bad("location keys are positions within the slice (enumerate over list[slice]), not the elements' array indices", fe)
     if src.view != "zip" or not isinstance(src.base, tuple) or len(src.base) != 2:
@@ -332,3 +334,44 @@ def _sources(src: Any) -> List[Source]:
             for b in src.base:
                 out += _sources(b)
     return out
+
+
+def _expect_index_loop(x: Expect, fe: Ev, src: Source, parent: Inst, container: Sym, sl: SliceV, it: Interp) -> Expect:
+    """for idx in range(*S2.indices(len(V))): yield child(V[idx], idx) with S2 componentwise the selector's slice."""
+    terms = []
+    for k, a in enumerate(src.base):
+        if not (isinstance(a, Term) and a.op == "getitem" and isinstance(a.args[1], Const) and a.args[1].value == k):
+            x.undecided = f"range arguments {src.base!r} are not the components of one slice.indices() call"
+            return x
+        terms.append(a.args[0])
+    si = terms[0]
+    if not (isinstance(si, Term) and si.op == "slice_indices" and all(t is si for t in terms)):
+        x.undecided = "range arguments do not come from one slice.indices() call"
+        return x
+    s2, n_used = si.args
+    if src.order:
+        return x.bad(f"iteration order is changed ({src.order})", fe)
+    if not isinstance(s2, SliceV):
+        return x.bad(f"indices are computed from {s2!r}, not from a slice", fe)
+    for comp in ("start", "stop", "step"):
+        a, b = getattr(s2, comp), getattr(sl, comp)
+        same = a is b or (isinstance(a, IntV) and isinstance(b, IntV) and a.lin == b.lin) or (isinstance(a, Const) and isinstance(b, Const) and a.value == b.value and type(a.value) is type(b.value))
+        if not same:
+            return x.bad(f"the slice used for iteration has {comp}={describe(a)!r} where the selector's slice has {describe(b)!r} (e.g. an explicit 0 treated as omitted)", fe)
+    n = Lin.var(it.host.len_var(("sym", container.id), container.label))
+    if not (isinstance(n_used, IntV) and n_used.lin == n):
+        return x.bad(f"slice.indices() is given {describe(n_used)!r}, expected len(node.value)", fe)
+    idx = fe.elem.target
+    body = strip_empty_loops(fe.body)
+    if len(body) != 1 or body[0].kind != "yield":
+        return x.bad(f"loop body trace is {show_trace(body)}, expected exactly one child per index", body[0] if body else fe)
+    if not isinstance(idx, IntV):
+        x.undecided = "range element is not an integer"
+        return x
+    val = it.host.members.get(("item", container.id, ("l", idx.lin.key())))
+    if val is None:
+        return x.bad("the element is not read from node.value at the iterated index", body[0])
+    p = child_problem(body[0].value, parent, val, idx)
+    if p:
+        return x.bad(p, body[0])
+    return x
